@@ -297,3 +297,25 @@ def no_panic_on_decrypt(ctx):
     n = c14.audit_panics(ctx, F, reach, 'the decryption of a header / PKE ciphertext')
     ctx.floor(len(roots), 3, 'decrypting entry points')
     ctx.note('%d functions reachable from the decrypting entry points, %d panic sites audited' % (len(reach), n))
+
+
+@rule('C12', 'header-read-errors-propagated')
+def header_read_errors_propagated(ctx):
+    """'truncated ... ciphertexts yield an error': the header reader does not turn a failed read into an absent field
+    (`read_vec(de).ok()`): a header cut right after its encapsulation would otherwise decode as one without metadata."""
+    from . import c09
+    F = ctx.F
+    bodies = []
+    for k in F.bodies:
+        if k.endswith('::read') and 'encrypted_header::' in k and F.bodies[k].kind != 'Closure':
+            bodies += lib.family_ext(F, k)
+    ctx.floor(len(bodies), 2, 'header readers')
+    c09.no_swallow(ctx, only=bodies)
+
+
+@rule('C12', 'every-secret-tried', configs=('default', 'p256'))
+def every_secret_tried(ctx):
+    """'an authorized key ... decrypts': the PKE / header layers open through decaps, which tries every secret of the key against
+    every right encapsulation — hybridized secrets included when the encapsulation is classic (C01.every-secret-tried)."""
+    from . import c01
+    c01.every_secret_tried(ctx)
